@@ -414,3 +414,51 @@ def write_evidence(prop_id, tier, seed, coverage, assumptions, wall_s, violation
     with open(os.path.join(VERIF, 'evidence', prop_id + '.json'), 'w') as f:
         json.dump(ev, f, indent=1, sort_keys=True)
         f.write('\n')
+
+
+# ---- change-directed escalation (DESIGN §11.9) -------------------------------------------------------------------------------------
+FINGERPRINTS = os.path.join(VERIF, 'lib', 'fingerprints.json')
+REPO = '/repo'
+_ALL = ['datacake-crdt', 'datacake-node', 'datacake-rpc', 'datacake-eventual-consistency', 'datacake-sqlite', 'datacake-lmdb']
+# the crates whose code a property's check executes (a change anywhere else cannot affect what the check observes)
+PROP_CRATES = {
+    'C03': ['datacake-crdt'], 'C04': ['datacake-crdt'], 'C05': ['datacake-crdt'], 'C08': ['datacake-crdt'],
+    'C09': ['datacake-crdt'], 'C10': ['datacake-crdt'],
+    'C11': ['datacake-crdt', 'datacake-node'], 'C15': ['datacake-crdt', 'datacake-node'],
+    'C16': ['datacake-crdt', 'datacake-node', 'datacake-rpc', 'datacake-eventual-consistency'],
+    'C12': ['datacake-rpc'], 'C13': ['datacake-rpc'], 'C14': ['datacake-rpc'],
+    'C17': ['datacake-crdt', 'datacake-eventual-consistency', 'datacake-sqlite', 'datacake-lmdb'],
+}
+
+
+def source_hashes():
+    """sha256 of every .rs / Cargo.toml file under the crates' directories in /repo's working tree (target/ excluded)"""
+    out = {}
+    for crate in _ALL:
+        for root, dirs, files in os.walk(os.path.join(REPO, crate)):
+            dirs[:] = [d for d in dirs if d not in ('target', '.git')]
+            for f in files:
+                if f.endswith('.rs') or f == 'Cargo.toml':
+                    p = os.path.join(root, f)
+                    out[os.path.relpath(p, REPO)] = hashlib.sha256(open(p, 'rb').read()).hexdigest()
+    return out
+
+
+def changed_sources(prop_id):
+    """source files of the crates this property's check runs that differ from the fingerprinted tree (the tree the committed
+    models, theorems and corpus were last brought up to date with); tests/ and benches/ of the crates are not compiled into the
+    harness and do not count"""
+    try:
+        fp = json.load(open(FINGERPRINTS))['files']
+    except Exception:
+        return []
+    now = source_hashes()
+    crates = PROP_CRATES.get(prop_id, _ALL)
+    ch = []
+    for p in sorted(set(fp) | set(now)):
+        parts = p.split('/')
+        if parts[0] not in crates or (len(parts) > 1 and parts[1] in ('tests', 'benches', 'examples')):
+            continue
+        if fp.get(p) != now.get(p):
+            ch.append(p)
+    return ch
